@@ -4,7 +4,8 @@
 Each mutant in selftest/mutants.json (and each kept seed in seeded/<id>/patch.diff) is applied to a copy of the
 affected files IN MEMORY and handed to vcheck through the go/packages overlay (-overlay); /repo is never written.
 A mutant is `detected` when vcheck exits 1 and (if the mutant names one) a violated obligation key contains the
-expected fragment. A mutant whose `find` text no longer occurs exactly once in /repo's current file is `stale`,
+expected fragment. Entries of selftest/neutral.json are behaviour-preserving refactorings: on those the check must stay SILENT (exit 0);
+an alarm there is a false alarm of the checker. A mutant whose `find` text no longer occurs exactly once in /repo's current file is `stale`,
 one that no longer type-checks is `invalid`; neither says anything about the checker and both are only reported.
 
 The result is merged into evidence/<prop>.json under coverage.selftest. The exit code is always 0: a self-test
@@ -24,6 +25,13 @@ import time
 VERIF = os.path.dirname(os.path.dirname(os.path.abspath(__file__)))
 REPO = os.environ.get("VERIF_REPO", "/repo")
 VCHECK = os.path.join(VERIF, "bin", "vcheck")
+
+
+def load_neutral(prop):
+    path = os.path.join(VERIF, "selftest", "neutral.json")
+    if not os.path.exists(path):
+        return []
+    return [dict(m, neutral=True) for m in json.load(open(path)) if m["prop"] == prop]
 
 
 def load_mutants(prop):
@@ -104,6 +112,11 @@ def run_one(m, scratch):
     res["wall_s"] = round(time.time() - t0, 1)
     if r.returncode == 2 and ("type errors" in r.stdout or "load:" in r.stdout):
         res["status"] = "invalid"
+    elif m.get("neutral"):
+        # a behaviour-preserving refactoring: the check must stay silent
+        res["status"] = {0: "silent", 1: "alarm"}.get(r.returncode, "undecided")
+        if r.returncode == 2:
+            res["why"] = [l for l in r.stdout.splitlines() if l.startswith(("UNDECIDED", "ERROR"))][:3]
     elif r.returncode == 1 and (not m.get("expect") or any(m["expect"] in k for k in keys)):
         res["status"] = "detected"
     elif r.returncode == 1:
@@ -119,11 +132,13 @@ def main():
     prop = sys.argv[1]
     jobs = int(os.environ.get("VERIF_JOBS", "8"))
     mutants = load_mutants(prop)
+    neutral = load_neutral(prop)
     scratch = tempfile.mkdtemp(prefix="vselftest_")
     t0 = time.time()
     try:
         with concurrent.futures.ThreadPoolExecutor(max_workers=jobs) as ex:
             results = list(ex.map(lambda m: run_one(m, scratch), mutants))
+            nresults = list(ex.map(lambda m: run_one(m, scratch), neutral))
     finally:
         shutil.rmtree(scratch, ignore_errors=True)
     counts = {}
@@ -134,12 +149,24 @@ def main():
     caught = counts.get("detected", 0) + counts.get("detected-elsewhere", 0) + counts.get("undecided", 0)
     print("SELFTEST property=%s mutants=%d reported=%d missed=%d stale=%d invalid=%d wall=%.0fs" % (
         prop, len(results), caught, counts.get("missed", 0), counts.get("stale", 0), counts.get("invalid", 0), time.time() - t0))
+    ncounts = {}
+    for x in nresults:
+        ncounts[x["status"]] = ncounts.get(x["status"], 0) + 1
+        if x["status"] == "alarm":
+            print("SELFTEST-ALARM property=%s refactoring=%s keys=%s (%s)" % (prop, x["id"], x.get("violated"), x["note"]))
+        if x["status"] == "undecided":
+            print("SELFTEST-UNDECIDED property=%s refactoring=%s %s (%s)" % (prop, x["id"], x.get("why"), x["note"]))
+    if nresults:
+        print("SELFTEST-NEUTRAL property=%s refactorings=%d silent=%d alarm=%d undecided=%d stale=%d invalid=%d" % (
+            prop, len(nresults), ncounts.get("silent", 0), ncounts.get("alarm", 0), ncounts.get("undecided", 0), ncounts.get("stale", 0), ncounts.get("invalid", 0)))
     evf = os.path.join(os.environ.get("VERIF_EVIDENCE_DIR", os.path.join(VERIF, "evidence")), prop + ".json")
     try:
         ev = json.load(open(evf))
         ev["coverage"]["selftest"] = {
             "rule": "each mutant is one small source edit that breaks the property (or a clause the rules decide) and still type-checks; it is analysed through the go/packages overlay and must be reported",
             "mutants": len(results), "reported": caught, "counts": counts, "results": results,
+            "neutral_rule": "each neutral entry is a behaviour-preserving refactoring of the anchored code (rename, extract/inline, if<->switch, loop form, statement order) that compiles and passes its package's tests; the check must stay silent on it",
+            "neutral": len(nresults), "neutral_counts": ncounts, "neutral_results": nresults,
         }
         ev["wall_s"] = round(ev.get("wall_s", 0) + time.time() - t0, 2)
         json.dump(ev, open(evf, "w"), indent=1)
